@@ -234,4 +234,302 @@ theorem C03_kernel_samples (i : Nat) (step v r : Rat) :
   · kernel_unfold [k_setfl_pair_scale]
     kernel_close
 
+/-! ## The code itself: the setfl writer's pieces regenerated from the source
+
+`Atsim.Gen.Logic.setfl_element_header / setfl_embedding / setfl_density_function / setfl_density / setfl_pair_pots / setfl_write` are
+`_lammpsWriteEAM._writeSetFLElementHeader / _writeSetFLEmbeddingFunction / _writeDensityFunction / _writeSetFLDensityFunction / _writeSetFLPairPots / _writeSetFL`
+as produced by `translator/py2lean_logic.py` on every run.  The theorems state, for EVERY element list, pair declarations, grid and prior stream content and under
+every interpretation of the callables that maps function id 0 to zero, that what the code writes means what the model `setfl` says (`Lemmas/TokSem.lean`):
+one `%d %20.16e %20.16e %s` element line with the element's own metadata, `nrho` embedding values at `i*drho`, `nr` density values at `i*dr`, and for every
+pair `(i, j <= i)` in header order `nr` values of `r*phi(r)` with `phi` found whichever way round it was declared (last declaration wins) and zero when undeclared. -/
+namespace SetflWriter
+open Atsim.Gen.Logic Atsim.TokSem
+
+/-- the one-number line the loops emit -/
+def numTok (v : OV) : Tok := ⟨"% 20.16e\n", [v]⟩
+
+theorem intRange_zero (n : Nat) : intRange 0 (n : Int) = (List.range n).map fun (k : Nat) => (k : Int) := by
+  simp [intRange]
+
+theorem intRange_zero_succ (n : Nat) : intRange 0 ((n : Int) + 1) = (List.range (n + 1)).map fun (k : Nat) => (k : Int) := by
+  have := intRange_zero (n + 1)
+  simpa using this
+
+theorem flatMap_congr' {α β : Type} {l : List α} {f g : α → List β} (h : ∀ x ∈ l, f x = g x) : l.flatMap f = l.flatMap g := by
+  induction l with
+  | nil => rfl
+  | cons a l ih =>
+    simp only [List.flatMap_cons]
+    rw [h a (by simp), ih (fun x hx => h x (by simp [hx]))]
+
+theorem flatten_flatMap' {α β : Type} (l : List α) (f : α → List (List β)) : (l.flatMap f).flatten = l.flatMap fun a => (f a).flatten := by
+  induction l with
+  | nil => rfl
+  | cons a l ih => simp [List.flatMap_cons, List.flatten_append, ih]
+
+theorem streamSem_append (I : String → Nat → Rat → Rat) (a b : List Tok) : streamSem I (a ++ b) = streamSem I a ++ streamSem I b := by
+  simp [streamSem]
+
+theorem streamSem_nil (I : String → Nat → Rat → Rat) : streamSem I [] = [] := rfl
+
+/-- a plain function value: the model's slot (function id 0 is the zero function) -/
+theorem tokSem_value (I : String → Nat → Rat → Rat) (hI : ZeroFn I) (f : Nat) (x : Rat) :
+    tokSem I (numTok (.fn "value" f x)) = numLine (slotVal I "value" (mkSlot f x)) := by
+  unfold mkSlot
+  split
+  · next h => subst h; simp [tokSem, numTok, numLine, slotVal, ovEval, hI "value" x]
+  · simp [tokSem, numTok, numLine, slotVal, ovEval]
+
+theorem embedding_loop_eq (drho : Rat) (e : EamRec) (nrho : Int) (out : List Tok) :
+    ∀ (xs : List Int) (wk : List Tok),
+      setfl_embedding_loop1 drho e nrho out wk xs = out ++ (wk ++ xs.map fun (i : Int) => numTok (embedOf e ((i : Rat) * drho))) := by
+  intro xs
+  induction xs with
+  | nil => intro wk; simp [setfl_embedding_loop1]
+  | cons i is ih =>
+    intro wk
+    simp only [setfl_embedding_loop1, ih, List.map_cons, numTok]
+    simp [List.append_assoc]
+
+theorem density_function_loop_eq (dr : Rat) (f : FnRec) (nr : Int) :
+    ∀ (xs : List Int) (out : List Tok),
+      setfl_density_function_loop1 dr f nr out xs = out ++ xs.map fun (i : Int) => numTok (evalFnOV f ((i : Rat) * dr)) := by
+  intro xs
+  induction xs with
+  | nil => intro out; simp [setfl_density_function_loop1]
+  | cons i is ih =>
+    intro out
+    simp only [setfl_density_function_loop1, ih, List.map_cons, numTok]
+    simp [List.append_assoc]
+
+theorem density_function_sem (I : String → Nat → Rat → Rat) (hI : ZeroFn I) (f : Nat) (nr : Nat) (dr : Rat) (out : List Tok) :
+    streamSem I (setfl_density_function ⟨f⟩ (nr : Int) dr out) =
+      streamSem I out ++ (sampled f nr dr).map (fun s => numLine (slotVal I "value" s)) := by
+  unfold setfl_density_function
+  rw [density_function_loop_eq, streamSem_append, intRange_zero]
+  congr 1
+  simp only [streamSem, sampled, List.map_map]
+  apply List.map_congr_left
+  intro k _
+  simp only [Function.comp, evalFnOV, Int.cast_natCast]
+  exact tokSem_value I hI f _
+
+
+/-! #### pair blocks -/
+
+theorem pairkey_eq (a b : String) : setfl_pairkey a b = if a ≤ b then [a, b] else [b, a] := by
+  simp [setfl_pairkey, stableSortBy, insertBy]
+
+theorem pairkey_beq (a b c d : String) : (setfl_pairkey a b == setfl_pairkey c d) = (pairKey a b == pairKey c d) := by
+  rw [pairkey_eq, pairkey_eq]
+  unfold pairKey
+  by_cases h1 : a ≤ b <;> by_cases h2 : c ≤ d <;> (rw [Bool.eq_iff_iff]; simp [h1, h2])
+
+/-- the dictionary the writer builds: one binding per declaration, in order -/
+def dictOf (ps : List PotRec) : List (List String × PotRec) := ps.map fun p => (setfl_pairkey p.a p.b, p)
+
+theorem lookup_eq (pairs : List PairDecl) (a b : String) :
+    lookupLast (dictOf (pairs.map toPot)) (setfl_pairkey a b) = (pairs.reverse.find? fun p => pairKey p.a p.b == pairKey a b).map toPot := by
+  unfold lookupLast dictOf
+  rw [List.map_map, ← List.map_reverse, List.find?_map, Option.map_map]
+  have : ((fun e : List String × PotRec => e.1 == setfl_pairkey a b) ∘ ((fun p : PotRec => (setfl_pairkey p.a p.b, p)) ∘ toPot))
+      = fun p : PairDecl => pairKey p.a p.b == pairKey a b := by
+    funext p
+    simp only [Function.comp, toPot]
+    exact pairkey_beq _ _ _ _
+  rw [this]
+  cases pairs.reverse.find? fun p => pairKey p.a p.b == pairKey a b <;> simp [Function.comp]
+
+/-- the value the inner loop writes at grid index `k` -/
+def pairTok (scale : Bool) (pp : Option PotRec) (dr : Rat) (k : Int) : Tok :=
+  numTok (if scale then .scaled ((k : Rat) * dr) (energyOfOpt pp ((k : Rat) * dr)) else energyOfOpt pp ((k : Rat) * dr))
+
+theorem loop4_eq (dr : Rat) (els : List EamRec) (i j nr : Int) (out : List Tok) (pps : List PotRec) (dict : List (List String × PotRec))
+    (pp : Option PotRec) (scale : Bool) :
+    ∀ (xs : List Int) (wk : List Tok),
+      setfl_pair_pots_loop4 dr els i j nr out pps dict pp scale wk xs = wk ++ xs.map (pairTok scale pp dr) := by
+  intro xs
+  induction xs with
+  | nil => intro wk; simp [setfl_pair_pots_loop4]
+  | cons k ks ih =>
+    intro wk
+    cases scale <;> simp [setfl_pair_pots_loop4, ih, pairTok, numTok, List.append_assoc]
+
+/-- the block written for the pair of element indices `(i, j)` -/
+def pairBlockToks (scale : Bool) (els : List EamRec) (dict : List (List String × PotRec)) (nr : Int) (dr : Rat) (i j : Int) : List Tok :=
+  (intRange 0 nr).map (pairTok scale (lookupLast dict (setfl_pairkey (listGet els i).species (listGet els j).species)) dr)
+
+theorem loop3_eq (dr : Rat) (els : List EamRec) (i nr : Int) (out : List Tok) (pps : List PotRec) (dict : List (List String × PotRec)) (scale : Bool) :
+    ∀ (xs : List Int) (wk : List Tok),
+      setfl_pair_pots_loop3 dr els i nr out pps dict scale wk xs = wk ++ xs.flatMap (pairBlockToks scale els dict nr dr i) := by
+  intro xs
+  induction xs with
+  | nil => intro wk; simp [setfl_pair_pots_loop3]
+  | cons j js ih =>
+    intro wk
+    simp only [setfl_pair_pots_loop3, loop4_eq, ih, List.flatMap_cons, pairBlockToks, List.append_assoc]
+
+theorem loop2_eq (dr : Rat) (els : List EamRec) (nr : Int) (out : List Tok) (pps : List PotRec) (dict : List (List String × PotRec)) (scale : Bool) :
+    ∀ (xs : List Int) (wk : List Tok),
+      setfl_pair_pots_loop2 dr els nr out pps dict scale wk xs =
+        wk ++ xs.flatMap fun (i : Int) => (intRange 0 (i + 1)).flatMap (pairBlockToks scale els dict nr dr i) := by
+  intro xs
+  induction xs with
+  | nil => intro wk; simp [setfl_pair_pots_loop2]
+  | cons i is ih =>
+    intro wk
+    simp only [setfl_pair_pots_loop2, loop3_eq, ih, List.flatMap_cons, List.append_assoc]
+
+theorem loop1_eq (dr : Rat) (els : List EamRec) (nr : Int) (out : List Tok) (pps : List PotRec) (scale : Bool) (wk : List Tok) :
+    ∀ (ps : List PotRec) (dict : List (List String × PotRec)),
+      setfl_pair_pots_loop1 dr els nr out pps dict scale wk ps =
+        out ++ (wk ++ (intRange 0 (els.length : Int)).flatMap fun (i : Int) =>
+          (intRange 0 (i + 1)).flatMap (pairBlockToks scale els (dict ++ dictOf ps) nr dr i)) := by
+  intro ps
+  induction ps with
+  | nil => intro dict; simp [setfl_pair_pots_loop1, loop2_eq, dictOf]
+  | cons p ps ih =>
+    intro dict
+    simp only [setfl_pair_pots_loop1, ih, dictOf, List.map_cons, List.append_assoc, List.cons_append, List.nil_append]
+
+theorem listGet_species (els : List El) (i : Nat) (h : i < els.length) : (listGet (els.map toEam) (i : Int)).species = els[i].sp := by
+  simp [listGet, h, toEam]
+
+/-- one value of a pair block means what the model's slot says -/
+theorem tokSem_pair (I : String → Nat → Rat → Rat) (hI : ZeroFn I) (scale : Bool) (po : Option PairDecl) (dr : Rat) (k : Nat) :
+    tokSem I (pairTok scale (po.map toPot) dr (k : Int)) =
+      numLine (pairSlotVal I scale (if scale && k == 0 then Slot.zero else mkSlot (match po with | some p => p.fid | none => 0) ((k : Rat) * dr))) := by
+  cases scale
+  · cases po with
+    | none => simp [pairTok, numTok, tokSem, numLine, energyOfOpt, ovEval, mkSlot, pairSlotVal]
+    | some p =>
+      by_cases hf : p.fid = 0
+      · simp [pairTok, numTok, tokSem, numLine, energyOfOpt, ovEval, mkSlot, pairSlotVal, toPot, hf, hI "energy"]
+      · simp [pairTok, numTok, tokSem, numLine, energyOfOpt, ovEval, mkSlot, pairSlotVal, toPot, hf]
+  · by_cases hk : k = 0
+    · subst hk
+      simp [pairTok, numTok, tokSem, numLine, ovEval, pairSlotVal]
+    · cases po with
+      | none => simp [pairTok, numTok, tokSem, numLine, energyOfOpt, ovEval, mkSlot, pairSlotVal, hk]
+      | some p =>
+        by_cases hf : p.fid = 0
+        · simp [pairTok, numTok, tokSem, numLine, energyOfOpt, ovEval, mkSlot, pairSlotVal, toPot, hf, hk, hI "energy"]
+        · simp [pairTok, numTok, tokSem, numLine, energyOfOpt, ovEval, mkSlot, pairSlotVal, toPot, hf, hk]
+
+/-- the block of the pair `(i, j)`, both in range, is the model's -/
+theorem pairBlock_sem (I : String → Nat → Rat → Rat) (hI : ZeroFn I) (els : List El) (pairs : List PairDecl) (nr : Nat) (dr : Rat) (scale : Bool)
+    (i j : Nat) (hi : i < els.length) (hj : j < els.length) :
+    streamSem I (pairBlockToks scale (els.map toEam) (dictOf (pairs.map toPot)) (nr : Int) dr (i : Int) (j : Int)) =
+      (pairSlots scale (pairLookup pairs (pairKey els[i].sp els[j].sp)) nr dr).map (fun s => numLine (pairSlotVal I scale s)) := by
+  unfold pairBlockToks pairSlots pairLookup
+  rw [listGet_species els i hi, listGet_species els j hj, lookup_eq, intRange_zero]
+  simp only [streamSem, List.map_map]
+  apply List.map_congr_left
+  intro k _
+  simp only [Function.comp]
+  exact tokSem_pair I hI scale _ dr k
+
+end SetflWriter
+
+open Atsim.Gen.Logic Atsim.TokSem in
+/-- **code tie**: the element line carries the element's own atomic number, mass, lattice constant and lattice type -/
+theorem C03_code_element_header (e : El) (out : List Tok) :
+    setfl_element_header (toEam e) out = out ++ [⟨"%d %20.16e %20.16e %s\n", [.int e.z, .num e.mass, .num e.a0, .str e.lat]⟩] := by
+  simp [setfl_element_header, toEam]
+
+open Atsim.Gen.Logic Atsim.TokSem in
+/-- **code tie**: exactly `nrho` embedding values, the i-th one the element's own embedding function at `i*drho` -/
+theorem C03_code_embedding (I : String → Nat → Rat → Rat) (hI : ZeroFn I) (e : El) (nrho : Nat) (drho : Rat) (out : List Tok) :
+    streamSem I (setfl_embedding (nrho : Int) drho (toEam e) out) =
+      streamSem I out ++ (sampled e.embed nrho drho).map (fun s => numLine (slotVal I "value" s)) := by
+  unfold setfl_embedding
+  rw [SetflWriter.embedding_loop_eq, SetflWriter.streamSem_append, SetflWriter.intRange_zero]
+  congr 1
+  simp only [streamSem, sampled, List.map_map, List.nil_append]
+  apply List.map_congr_left
+  intro k _
+  simp only [Function.comp, embedOf, toEam, Int.cast_natCast]
+  exact SetflWriter.tokSem_value I hI e.embed _
+
+open Atsim.Gen.Logic Atsim.TokSem in
+/-- **code tie**: exactly `nr` density values, the i-th one the element's own density function at `i*dr` -/
+theorem C03_code_density (I : String → Nat → Rat → Rat) (hI : ZeroFn I) (e : El) (els : List El) (nr : Nat) (dr : Rat) (out : List Tok) :
+    streamSem I (setfl_density (toEam e) (els.map toEam) (nr : Int) dr out) =
+      streamSem I out ++ (sampled e.dens nr dr).map (fun s => numLine (slotVal I "value" s)) := by
+  unfold setfl_density
+  rw [SetflWriter.streamSem_append]
+  congr 1
+  have := SetflWriter.density_function_sem I hI e.dens nr dr []
+  simpa [SetflWriter.streamSem_nil, toEam] using this
+
+
+open Atsim.Gen.Logic Atsim.TokSem in
+/-- **code tie (pair blocks)**: for every pair `(i, j <= i)` in header order, `nr` values of `r*phi(r)` (or `phi(r)` when unscaled), `phi` looked up under the sorted pair of labels
+    (either declaration order, the last declaration winning) and zero when undeclared - exactly the model's `pairBlocks` -/
+theorem C03_code_pair_pots (I : String → Nat → Rat → Rat) (hI : ZeroFn I) (els : List El) (pairs : List PairDecl) (nr : Nat) (dr : Rat) (scale : Bool) (out : List Tok) :
+    streamSem I (setfl_pair_pots (nr : Int) dr (els.map toEam) (pairs.map toPot) out scale) =
+      streamSem I out ++ ((pairBlocks scale els pairs nr dr).flatten).map (fun s => numLine (pairSlotVal I scale s)) := by
+  unfold setfl_pair_pots
+  rw [SetflWriter.loop1_eq, SetflWriter.streamSem_append]
+  congr 1
+  simp only [List.nil_append, List.length_map, SetflWriter.intRange_zero, List.flatMap_map, SetflWriter.intRange_zero_succ]
+  unfold pairBlocks lowerTri
+  simp only [streamSem, List.map_flatMap, List.map_map, SetflWriter.flatten_flatMap', ← List.flatMap_def]
+  apply SetflWriter.flatMap_congr'
+  intro i hi
+  apply SetflWriter.flatMap_congr'
+  intro j hj
+  have hi' : i < els.length := by simpa using hi
+  have hj' : j < els.length := by
+    have : j < i + 1 := by simpa using hj
+    omega
+  have := SetflWriter.pairBlock_sem I hI els pairs nr dr scale i j hi' hj'
+  simp only [streamSem] at this
+  simp [this, hi', hj']
+
+
+namespace SetflWriter
+open Atsim.Gen.Logic Atsim.TokSem
+
+/-- what one element block means -/
+def elSem (I : String → Nat → Rat → Rat) (b : ElBlock) : List (String × List (Option String × Rat)) :=
+  [("%d %20.16e %20.16e %s\n", [(none, (b.z : Rat)), (none, b.mass), (none, b.a0), (some b.lat, 0)])] ++
+    (b.embed.map fun s => numLine (slotVal I "value" s)) ++ (b.dens.flatten.map fun s => numLine (slotVal I "value" s))
+
+theorem write_loop_sem (I : String → Nat → Rat → Rat) (hI : ZeroFn I)
+    (hdr : Int → Rat → Int → Rat → Rat → List EamRec → List String → List Tok → List Tok)
+    (nrho : Nat) (drho : Rat) (nr : Nat) (dr cutoff : Rat) (els : List El) (pairs : List PairDecl) (comments : List String) (out : List Tok) :
+    ∀ (xs : List El) (wk : List Tok),
+      streamSem I (setfl_write_loop1 hdr comments cutoff dr drho (els.map toEam) (nr : Int) (nrho : Int) out (pairs.map toPot) wk setfl_density (xs.map toEam)) =
+        streamSem I out ++ streamSem I wk ++ (xs.flatMap fun e => elSem I (elBlock false els nrho drho nr dr e)) ++
+          ((pairBlocks true els pairs nr dr).flatten).map (fun s => numLine (pairSlotVal I true s)) := by
+  intro xs
+  induction xs with
+  | nil =>
+    intro wk
+    simp only [List.map_nil, setfl_write_loop1, streamSem_append, C03_code_pair_pots I hI, List.flatMap_nil, List.append_nil, List.append_assoc]
+  | cons e es ih =>
+    intro wk
+    simp only [List.map_cons, setfl_write_loop1, ih, streamSem_append, C03_code_density I hI, C03_code_embedding I hI, C03_code_element_header,
+      List.flatMap_cons, List.nil_append, List.append_assoc, elSem, elBlock]
+    simp [streamSem, tokSem, ovEval]
+
+end SetflWriter
+
+open Atsim.Gen.Logic Atsim.TokSem in
+/-- **code tie (whole file, eam/alloy)**: after the header (whose text is written by `_writeSetFLHeader`, kept opaque here: its numbers are the kernel ties
+    `C03_kernel_*`), for each element in header order its line, its `nrho` embedding values and its `nr` density values, then the pair blocks: the model's `setfl false` -/
+theorem C03_code_setfl_write (I : String → Nat → Rat → Rat) (hI : ZeroFn I)
+    (hdr : Int → Rat → Int → Rat → Rat → List EamRec → List String → List Tok → List Tok)
+    (nrho : Nat) (drho : Rat) (nr : Nat) (dr cutoff : Rat) (els : List El) (pairs : List PairDecl) (comments : List String) (out : List Tok) :
+    streamSem I (setfl_write hdr (nrho : Int) drho (nr : Int) dr cutoff (els.map toEam) (pairs.map toPot) comments out setfl_density) =
+      streamSem I out ++ streamSem I (hdr (nrho : Int) drho (nr : Int) dr cutoff (els.map toEam) comments []) ++
+        ((setfl false nrho drho nr dr els pairs).elements.flatMap fun b =>
+            [("%d %20.16e %20.16e %s\n", [(none, (b.z : Rat)), (none, b.mass), (none, b.a0), (some b.lat, 0)])] ++
+            (b.embed.map fun s => numLine (slotVal I "value" s)) ++ (b.dens.flatten.map fun s => numLine (slotVal I "value" s))) ++
+        ((setfl false nrho drho nr dr els pairs).pairs.flatten).map (fun s => numLine (pairSlotVal I true s)) := by
+  unfold setfl_write
+  rw [SetflWriter.write_loop_sem I hI]
+  simp only [setfl, List.flatMap_map, SetflWriter.elSem]
+
 end Atsim.C03
